@@ -39,5 +39,12 @@ Toks == { Tok("HS256", <<>>, m, Sig("valid", "HS256", KOct)) : m \in Claims }
 C19Scripts ==
   { <<LoadOp(<<KOct, KOct2>>), CNewOp, CSetKeyOp("HS256", 0)>> \o cfg \o <<CSetCbOp(p), VerifyOpX(t, 0, 1)>> :
       cfg \in Configs, p \in AllProgs, t \in Toks }
-MCSpec == ISpecWith(C19Scripts)
+\* the checker's own key carries an alg attribute (HS512); the callback keeps the key and only relabels
+\* config->alg: the pair must pass the same table as setkey (HS256 with an HS512 key is refused)
+RelabelProgs == { <<CbAlg(a)>> : a \in {"HS256", "HS512", "HS384", "none", "RS256"} }
+                \cup { <<CbKey(1), CbAlg(a)>> : a \in {"HS256", "HS512", "none"} } \cup { <<CbAlg("HS256"), CbKey(1)>> }
+RelabelToks == { Tok(a, <<>>, <<IntM("exp", FutW)>>, Sig("valid", a, KOct2)) : a \in {"HS256", "HS512", "HS384"} }
+RelabelScripts ==
+  { <<LoadOp(<<KOct, KOct2>>), CNewOp, CSetKeyOp("none", 1), CSetCbOp(p), VerifyOpX(t, 0, 1)>> : p \in RelabelProgs, t \in RelabelToks }
+MCSpec == ISpecWith(C19Scripts \cup RelabelScripts)
 =============================================================================
